@@ -1,5 +1,34 @@
-(* C05 — placeholder until the engine theorems are added below. *)
-From WF Require Import model.Base model.EngineBase model.Engine.
-Theorem C05_emit_dead_silent : forall t s, o_dead s = true -> emit t s = (Ok tt, s).
-Proof. intros t s H. unfold emit. now rewrite H. Qed.
-Print Assumptions C05_emit_dead_silent.
+(* C05 — outbox relay: every write is published at least once and removed only afterwards. Property theorems only.
+   Quantification: every configuration c and every history ops (hist_ok: no stale-read fault, non-negative clock advances):
+   any interleaving of writes and relay cycles, any batch size and lookup limit, any fault (error before / after the effect,
+   lease loss, crash) at list / new sender / send / close / delete, duplicated deliveries, two instances.
+   [w_hist] is the list of all committed Store calls in order; entry IDs number them. *)
+From WF Require Import model.Base model.Routing model.EngineBase model.Engine proofs.EngineInv proofs.EngineTokens proofs.EngineProps.
+
+(* a Store commits the record and exactly one outbox entry, the routing of that very record, in one step *)
+Theorem C05_store_one_entry : forall c w r,
+  w_hist (do_store c w r) = w_hist w ++ [stamp c w r] /\
+  w_outbox (do_store c w r) = w_outbox w ++ [route (w_noid w) (stamp c w r)].
+Proof. intros c w r. split; reflexivity. Qed.
+Print Assumptions C05_store_one_entry.
+
+(* in every reachable world every committed write is still pending in the outbox or has been accepted by the streamer
+   (an event with its topic, run ID, foreign ID, type, run state and version is in the log): an entry is removed only
+   after its event was accepted *)
+Theorem C05_published_or_pending : forall c ops, hist_ok ops -> forall k r,
+  nth_error (w_hist (fst (run_ops c ops))) k = Some r ->
+  In (route (N.of_nat k + 1)%N r) (w_outbox (fst (run_ops c ops))) \/ published (fst (run_ops c ops)) r.
+Proof. exact p_published_or_pending. Qed.
+Print Assumptions C05_published_or_pending.
+
+(* nothing is published that was not written *)
+Theorem C05_nothing_invented : forall c ops, hist_ok ops -> forall e, In e (w_log (fst (run_ops c ops))) ->
+  exists r, In r (w_hist (fst (run_ops c ops))) /\ ev_of e (route 0%N r).
+Proof. exact p_nothing_invented. Qed.
+Print Assumptions C05_nothing_invented.
+
+(* every pending entry describes a committed write *)
+Theorem C05_outbox_of_writes : forall c ops, hist_ok ops -> forall o, In o (w_outbox (fst (run_ops c ops))) ->
+  entry_at (w_hist (fst (run_ops c ops))) o.
+Proof. exact p_outbox_of_writes. Qed.
+Print Assumptions C05_outbox_of_writes.
